@@ -101,6 +101,7 @@ func driveFCall(c *Ctx) error {
 			}
 			args := concretizeArgs(asL(aj), 0)
 			ev := J{"ev": "fcall", "spec": sj, "args": projectArgs(args)}
+			ev["ia"] = digestOf(ev["args"])
 			// the call
 			var v cty.Value
 			var err error
@@ -142,6 +143,7 @@ func driveFCall(c *Ctx) error {
 				ev["rt"] = J{"ok": true, "t": ProjectType(ty)}
 			}
 			cbs = saved
+			ev["ia2"] = digestOf(projectArgs(args))
 			c.Out.Emit(ev)
 		}
 		return nil
